@@ -146,6 +146,9 @@ func (p *Printer) Print(w io.Writer, node Node) error {
 	case *Stmt:
 		p.stmtList([]*Stmt{node}, nil)
 	case Command:
+		// The first newline is only skipped at the top of a statement list;
+		// a command may need one before it ends, like "case x in\nesac".
+		p.firstLine = false
 		p.command(node, nil)
 	case *Word:
 		p.line = node.Pos().Line()
